@@ -9,6 +9,7 @@ import (
 
 	"github.com/cockroachdb/errors"
 	"github.com/cockroachdb/errors/errbase"
+	"github.com/cockroachdb/errors/errorspb"
 	"github.com/gogo/protobuf/proto"
 )
 
@@ -72,15 +73,23 @@ func (p Proc) points() int {
 // plain is the same process without observation points.
 func (p Proc) plain() Proc { p.Obs = nil; return p }
 
-// cur is the Go type that stands for lineage T in this process.
-func (p Proc) cur() *version {
+// cur is the Go type that stands for the lineage in this process.
+func (p Proc) cur(l *lineage) *version {
 	switch p.Ver {
 	case "Alt":
-		return altT
+		return l.alt
 	case unknowing:
 		return nil
 	}
-	return chainT[p.n()]
+	return l.chain[p.n()]
+}
+
+// fits tells whether the process exists for the lineage.
+func (p Proc) fits(l *lineage) bool {
+	if p.Ver == "Alt" {
+		return l.alt != nil
+	}
+	return p.n() <= l.maxN()
 }
 
 func (p Proc) String() string {
@@ -171,8 +180,23 @@ func (p Proc) valid() bool {
 
 // migCall is one RegisterTypeMigration call.
 type migCall struct {
+	prevPkg  string
 	prevName string
 	newProto error
+	root     string // model: the first name of the lineage (type name)
+}
+
+// renameCalls declares the rename from -> to for every type of the version
+// (one binary, one migration table), the way an application would: package
+// path and type name as reflect gives them for the previous type.
+func renameCalls(root, from, to *version) []migCall {
+	cs := []migCall{
+		{from.pkg(), from.leafName(), to.leafProto, root.leafName()},
+		{from.pkg(), from.wrapName(), to.wrapProto, root.wrapName()}}
+	if to.multiProto != nil {
+		cs = append(cs, migCall{from.pkg(), from.multiName(), to.multiProto, root.multiName()})
+	}
+	return cs
 }
 
 func (m migCall) String() string {
@@ -186,6 +210,8 @@ type opts struct {
 	// UPos: the position, among the rename steps of lineage T, at which the
 	// migration of the unrelated lineage U is declared (clamped).
 	UPos int
+	// lin: the lineage the configuration is about.
+	lin *lineage
 }
 
 // event is one step of a process's start-up history: a
@@ -209,26 +235,19 @@ func (p Proc) history(o opts) []event {
 		v     *version
 	}
 	var steps []step
+	l := o.lin
 	switch {
 	case p.Ver == "Alt":
-		steps = append(steps, step{[]migCall{
-			{chainT[0].leafName(), altT.leafProto},
-			{chainT[0].wrapName(), altT.wrapProto}}, altT})
+		steps = append(steps, step{renameCalls(l.chain[0], l.chain[0], l.alt), l.alt})
 	case p.Direct:
 		k := p.n()
-		steps = append(steps, step{[]migCall{
-			{chainT[0].leafName(), chainT[k].leafProto},
-			{chainT[0].wrapName(), chainT[k].wrapProto}}, chainT[k]})
+		steps = append(steps, step{renameCalls(l.chain[0], l.chain[0], l.chain[k]), l.chain[k]})
 	default:
 		for _, i := range p.Order {
-			steps = append(steps, step{[]migCall{
-				{chainT[i].leafName(), chainT[i+1].leafProto},
-				{chainT[i].wrapName(), chainT[i+1].wrapProto}}, chainT[i+1]})
+			steps = append(steps, step{renameCalls(l.chain[0], l.chain[i], l.chain[i+1]), l.chain[i+1]})
 		}
 	}
-	u := step{[]migCall{
-		{chainU[0].leafName(), chainU[1].leafProto},
-		{chainU[0].wrapName(), chainU[1].wrapProto}}, chainU[1]}
+	u := step{renameCalls(chainU[0], chainU[0], chainU[1]), chainU[1]}
 	pos := o.UPos
 	if pos > len(steps) {
 		pos = len(steps)
@@ -239,12 +258,12 @@ func (p Proc) history(o opts) []event {
 	}
 	var evs []event
 	// seen: the current type, then every type declared so far as a new type
-	seen := []*version{p.cur()}
+	seen := []*version{p.cur(l)}
 	add := func(st step) {
 		for i := range st.calls {
 			evs = append(evs, event{call: &st.calls[i]})
 		}
-		if st.v != p.cur() {
+		if st.v != p.cur(l) {
 			seen = append(seen, st.v)
 		}
 	}
@@ -278,24 +297,91 @@ func (p Proc) migrationCalls(o opts) []migCall {
 // key, encoding, identity. The results are not used.
 func observe(vs []*version) {
 	for _, v := range vs {
-		l := v.newLeaf("seen")
-		w := v.newWrap("seen", v.newLeaf("seen inside"))
+		l := v.newLeaf("seen", "c")
+		w := v.newWrap("seen", "c", v.newLeaf("seen inside", "c"))
 		_ = errors.GetTypeKey(l)
 		_ = errors.GetTypeKey(w)
 		_ = errors.EncodeError(context.Background(), w)
-		_ = errors.Is(w, v.newWrap("seen", v.newLeaf("seen inside")))
-		_ = errors.Is(errors.Wrap(l, "ctx"), v.newLeaf("seen"))
-		_ = errors.Is(v.newWrap("seen", goerrors.New("root")), l)
+		_ = errors.Is(w, v.newWrap("seen", "c", v.newLeaf("seen inside", "c")))
+		_ = errors.Is(errors.Wrap(l, "ctx"), v.newLeaf("seen", "c"))
+		_ = errors.Is(v.newWrap("seen", "c", goerrors.New("root")), l)
+		if v.multiProto != nil {
+			m := v.newMulti("seen", "c", []error{goerrors.New("root"), l})
+			_ = errors.GetTypeKey(m)
+			_ = errors.EncodeError(context.Background(), m)
+			_ = errors.Is(m, v.newMulti("seen", "c", nil))
+		}
 	}
 }
 
-func leafDecoderFor(v *version) errors.LeafDecoder {
-	return func(_ context.Context, msg string, _ []string, _ proto.Message) error { return v.newLeaf(msg) }
+// With encoders on, a type crosses the wire in a payload: the custom encoder
+// puts its fields (the message and the code that Error() does not show) in
+// an errorspb.StringsPayload, and the custom decoder rebuilds the Go type
+// from the payload only; it fails (-> opaque error) when the payload is
+// missing or is not the one of its role.
+func payloadFor(role string, err error) proto.Message {
+	m, c := err.(fielder).fields()
+	return &errorspb.StringsPayload{Details: []string{role, m, c}}
 }
 
-func wrapDecoderFor(v *version) errors.WrapperDecoder {
-	return func(_ context.Context, cause error, prefix string, _ []string, _ proto.Message) error {
-		return v.newWrap(prefix, cause)
+func fromPayload(role string, p proto.Message) (msg, code string, ok bool) {
+	sp, isSP := p.(*errorspb.StringsPayload)
+	if !isSP || sp == nil || len(sp.Details) != 3 || sp.Details[0] != role {
+		return "", "", false
+	}
+	return sp.Details[1], sp.Details[2], true
+}
+
+// registerCodecs registers the decoders (and, with encoders on, the
+// encoders) of version v under the type keys the library reports for v's
+// types. Without encoders the library's default encoding applies and the
+// decoders rebuild the type from the message (the code is not transferred).
+func registerCodecs(v *version, enc bool) {
+	lk, wk := errors.GetTypeKey(v.leafProto), errors.GetTypeKey(v.wrapProto)
+	if !enc {
+		errors.RegisterLeafDecoder(lk, func(_ context.Context, msg string, _ []string, _ proto.Message) error {
+			return v.newLeaf(msg, "")
+		})
+		errors.RegisterWrapperDecoder(wk, func(_ context.Context, cause error, prefix string, _ []string, _ proto.Message) error {
+			return v.newWrap(prefix, "", cause)
+		})
+		if v.multiProto != nil {
+			errors.RegisterMultiCauseDecoder(errors.GetTypeKey(v.multiProto), func(_ context.Context, causes []error, msg string, _ []string, _ proto.Message) error {
+				return v.newMulti(msg, "", causes)
+			})
+		}
+		return
+	}
+	errors.RegisterLeafEncoder(lk, func(_ context.Context, err error) (string, []string, proto.Message) {
+		return err.Error(), nil, payloadFor("leaf", err)
+	})
+	errors.RegisterLeafDecoder(lk, func(_ context.Context, _ string, _ []string, p proto.Message) error {
+		if m, c, ok := fromPayload("leaf", p); ok {
+			return v.newLeaf(m, c)
+		}
+		return nil
+	})
+	errors.RegisterWrapperEncoder(wk, func(_ context.Context, err error) (string, []string, proto.Message) {
+		m, _ := err.(fielder).fields()
+		return m, nil, payloadFor("wrap", err)
+	})
+	errors.RegisterWrapperDecoder(wk, func(_ context.Context, cause error, _ string, _ []string, p proto.Message) error {
+		if m, c, ok := fromPayload("wrap", p); ok {
+			return v.newWrap(m, c, cause)
+		}
+		return nil
+	})
+	if v.multiProto != nil {
+		mk := errors.GetTypeKey(v.multiProto)
+		errors.RegisterMultiCauseEncoder(mk, func(_ context.Context, err error) (string, []string, proto.Message) {
+			return err.Error(), nil, payloadFor("multi", err)
+		})
+		errors.RegisterMultiCauseDecoder(mk, func(_ context.Context, causes []error, _ string, _ []string, p proto.Message) error {
+			if m, c, ok := fromPayload("multi", p); ok {
+				return v.newMulti(m, c, causes)
+			}
+			return nil
+		})
 	}
 }
 
@@ -310,24 +396,13 @@ func (p Proc) register(o opts) {
 	}
 	for _, ev := range p.history(o) {
 		if ev.call != nil {
-			errors.RegisterTypeMigration(pkgPath, ev.call.prevName, ev.call.newProto)
+			errors.RegisterTypeMigration(ev.call.prevPkg, ev.call.prevName, ev.call.newProto)
 		} else {
 			observe(ev.observe)
 		}
 	}
-	for _, v := range []*version{p.cur(), chainU[1]} {
-		lk, wk := errors.GetTypeKey(v.leafProto), errors.GetTypeKey(v.wrapProto)
-		errors.RegisterLeafDecoder(lk, leafDecoderFor(v))
-		errors.RegisterWrapperDecoder(wk, wrapDecoderFor(v))
-		if o.Enc {
-			errors.RegisterLeafEncoder(lk, func(_ context.Context, err error) (string, []string, proto.Message) {
-				return err.Error(), nil, nil
-			})
-			errors.RegisterWrapperEncoder(wk, func(_ context.Context, err error) (string, []string, proto.Message) {
-				return err.(prefixer).prefix(), nil, nil
-			})
-		}
-	}
+	registerCodecs(p.cur(o.lin), o.Enc)
+	registerCodecs(chainU[1], o.Enc)
 }
 
 var pristine *errbase.VerifRegistrySnapshot
@@ -382,12 +457,12 @@ func permutations(n int) [][]int {
 	return out
 }
 
-// knowingProcs is every process that has a name for lineage T: V0, every
+// knowingProcs is every process that has a name for the lineage: V0, every
 // registration order of the chains of length 1..maxN, the single-call
-// ("direct") declarations, and the differently renamed code.
-func knowingProcs(maxN int) []Proc {
+// ("direct") declarations, and the differently renamed code if there is one.
+func knowingProcs(l *lineage) []Proc {
 	ps := []Proc{{Ver: "V0"}}
-	for n := 1; n <= maxN; n++ {
+	for n := 1; n <= l.maxN(); n++ {
 		for _, o := range permutations(n) {
 			ps = append(ps, Proc{Ver: "V" + strconv.Itoa(n), Order: o})
 		}
@@ -395,7 +470,10 @@ func knowingProcs(maxN int) []Proc {
 			ps = append(ps, Proc{Ver: "V" + strconv.Itoa(n), Direct: true})
 		}
 	}
-	return append(ps, Proc{Ver: "Alt"})
+	if l.alt != nil {
+		ps = append(ps, Proc{Ver: "Alt"})
+	}
+	return ps
 }
 
 // withObservations returns p with every subset of its observation points
@@ -418,9 +496,9 @@ func withObservations(p Proc) []Proc {
 
 // observingProcs is every knowing process with every non-empty subset of
 // its observation points.
-func observingProcs(maxN int) []Proc {
+func observingProcs(l *lineage) []Proc {
 	var out []Proc
-	for _, p := range knowingProcs(maxN) {
+	for _, p := range knowingProcs(l) {
 		out = append(out, withObservations(p)[1:]...)
 	}
 	return out
